@@ -506,6 +506,11 @@ pub fn plans(id: &str, tier: Tier) -> Vec<Plan> {
         for placement in [Tasks, Sequential] {
             add(Scenario { send_faults: true, ..sc(3, placement, &[], false, None, false, false) }, Some(if thorough { 4 } else { 3 }));
         }
+        // deep pipelines: many requests sent before any reply is collected (limits, windows, bounded queues
+        // inside the session layer only show beyond a few dozen outstanding requests)
+        for (n, placement) in [(33, Join), (40, Tasks), (65, Sequential), (130, Join)] {
+            add(sc(n, placement, &[], false, None, false, false), Some(if thorough && n < 50 { 1 } else { 0 }));
+        }
         // M2: artificial yields inside the critical sections
         add(sc(2, Tasks, &[], false, None, true, true), Some(if thorough { 5 } else { 4 }));
         add(sc(3, Tasks, &[], false, None, false, true), Some(if thorough { 4 } else { 3 }));
